@@ -10,7 +10,11 @@
       - the list [mutators]: calls that would have to write data or create a stored object;
       - while the file is open only for reading (>= 1 open, none of them for writing):
           every call reaches the device with zero writes and zero creating opens,
-          every mutator returns failure;
+          every mutator returns failure,
+          an inquiry about an attached object (its name, class, fields, record / member / attribute counts,
+          dimensions ...) gives the same answer every time it is asked through the same attachment
+          as long as only mutators and inquiries are called in between (a refused request leaves no trace in
+          what the handle shows; reading calls are left out: the library may cache or derive state while reading);
       - at [check]: if no handle was opened for writing since the snapshot, every file (the HDF file and the
         external files it references) has the same SHA-256 and no file was created or removed;
       - at [dump]: unless a mutator was issued through a write-mode handle since the snapshot, every record of
@@ -28,7 +32,7 @@ Definition mutators : list string :=
   [ (* H *)  "putelement"; "startwrite"; "write"; "trunc"; "setlength"; "hlcreate"; "hlconvert"; "hxcreate";
              "hccreate"; "hmccreate"; "dupdd"; "deldd"; "reuse"; "startbitwrite"; "bitwrite";
     (* V *)  "vsetname"; "vsetclass"; "vaddtagref"; "vinsertvs"; "vinsertvg"; "vdeletetagref"; "vdelete"; "vdeleten"; "vsetattr";
-    (* VS *) "vswrite"; "vssetname"; "vssetclass"; "vssetattr"; "vsdelete"; "vsdeleten"; "vssetexternalfile"; "vhstoredata";
+    (* VS *) "vswrite"; "vsdefinefields"; "vssetname"; "vssetclass"; "vssetattr"; "vsdelete"; "vsdeleten"; "vssetexternalfile"; "vhstoredata";
              "vhmakegroup";
     (* SD *) "sdcreate"; "sdwritedata"; "sdwritedim"; "sdsetattr"; "sdsetdimname"; "sdsetdimscale"; "sdsetdimstrs";
              "sdsetdimval_comp"; "sdsetdatastrs"; "sdsetcal"; "sdsetfillvalue"; "sdsetrange"; "sdsetcompress";
@@ -58,7 +62,8 @@ Record event := {
   e_args : list Z;        (* numeric arguments in order (non-numeric ones replaced as described above) *)
   e_rc : rcls;
   e_wbytes : Z; e_wcalls : Z; e_wcreates : Z;
-  e_aux : Z               (* check: 1 = all files same; dump: 1 = every record of the baseline dump (the first dump
+  e_aux : Z               (* inquiry calls: 2 = the answer differs from the previous answer of the same call on the same
+                             attachment although only mutators and inquiries were called in between (1 = same / first); check: 1 = all files same; dump: 1 = every record of the baseline dump (the first dump
                              after the snapshot) is present, unchanged, in this dump *)
 }.
 
@@ -81,7 +86,7 @@ Definition any_rw (s : st) : bool := existsb snd (opens s).
 Definition read_only_now (s : st) : bool := negb (any_rw s) && match opens s with [] => false | _ => true end.
 
 (** Verdict: the list of violated clauses (empty = the event conforms). *)
-Inductive clause := MutatorSucceeded | WriteReachedDevice | FileCreated | BytesChanged | ObjectsChanged.
+Inductive clause := MutatorSucceeded | WriteReachedDevice | FileCreated | BytesChanged | ObjectsChanged | InquiryChanged.
 
 Definition set_opens s o := {| opens := o; snapped := snapped s; rw_seen := rw_seen s; tainted := tainted s; dump0 := dump0 s |}.
 
@@ -143,7 +148,8 @@ Definition step (s : st) (e : event) : st * list clause :=
     | _ =>
       let m := is_mutator name (e_args e) in
       let s' := if m && any_rw s then {| opens := opens s; snapped := true; rw_seen := rw_seen s; tainted := true; dump0 := dump0 s |} else s in
-      (s', dev ++ if ro && m && match e_rc e with ROk => true | _ => false end then [MutatorSucceeded] else [])
+      (s', dev ++ (if ro && m && match e_rc e with ROk => true | _ => false end then [MutatorSucceeded] else [])
+               ++ (if ro && Z.eqb (e_aux e) 2 then [InquiryChanged] else []))
     end.
 
 Fixpoint run (s : st) (es : list event) : list (list clause) :=
@@ -154,4 +160,4 @@ Fixpoint run (s : st) (es : list event) : list (list clause) :=
 
 (** Codes for the driver. *)
 Definition clause_code (c : clause) : Z :=
-  match c with MutatorSucceeded => 1 | WriteReachedDevice => 2 | FileCreated => 3 | BytesChanged => 4 | ObjectsChanged => 5 end.
+  match c with MutatorSucceeded => 1 | WriteReachedDevice => 2 | FileCreated => 3 | BytesChanged => 4 | ObjectsChanged => 5 | InquiryChanged => 6 end.
